@@ -18,7 +18,7 @@ RULE = ('debug payloads = (i) the debug sections of every shipped test file that
         'values, line tables, CFI tables, aranges, pubnames) of every container equals that of the plain one; has_dwarf_info truth table over section-name '
         'subsets x strict; wrong CRC and declared!=inflated sizes are rejected. Non-trivial: a payload with >=1 unit and >=1 line or frame table compared '
         'under >=3 transforms. Distinct by SHA-1 of the payload + transform list.')
-N = {'quick': 250, 'thorough': 8000}
+N = {'quick': 250, 'thorough': 40000}
 ASSUMPTIONS = ['corpus payload bytes are obtained from the library itself on the unmodified file (Section data after relocation); the check then compares containers built from those bytes with each other and with the original',
                'the PIC phantom-byte file and files without .debug_info are not used as payloads; dumps are capped at 3000 DIEs and 2000 line entries per unit',
                'in a .zdebug container every debug section is renamed (the all-sections form); the mixed form objcopy produces for incompressible sections is a separate, counted family',
